@@ -58,3 +58,50 @@ Example write_b_unlimited_is_write :
   c_retire (snd (write_b c 3 [])) = [6] /\ c_done (snd (write_b c 3 [])) = [8] /\
   c_done (snd (write_b c 1000 [])) = [8; 2] /\ c_done (snd (write_b c 1000 [2])) = [8].
 Proof. cbv zeta. repeat split; vm_compute; reflexivity. Qed.
+
+(* ---------- in EVERY state: what a (possibly cut) pass writes is what is enforced afterwards, never more ---------- *)
+(* one Limit: the value never goes down; a frame that is written carries exactly the value in force afterwards and
+   sent is then that value; a refused frame writes nothing *)
+Lemma raise_limit_b_sound ft l b : 0 <= l_value l ->
+  let '(l', w, r) := raise_limit_b ft l b in
+  l_value l <= l_value l' /\ l_used l' = l_used l /\
+  Forall (fun x => x = W ft 0 (l_value l')) w /\
+  (w <> [] -> l_sent l' = l_value l') /\ (r = None -> w = [] /\ l_sent l' = l_sent l).
+Proof.
+  intros H. unfold raise_limit_b.
+  destruct (l_used l * 2 >? l_value l); match goal with |- context[if negb ?a then _ else _] => destruct (negb a) end;
+    try (destruct (b <=? 0)); try (destruct RAISE_BEFORE_START_FRAME); cbn;
+    repeat split; try lia; try (constructor; [reflexivity|constructor]); try constructor; try congruence; try discriminate;
+    intros; congruence.
+Qed.
+
+(* the streams: keys and receivers unchanged, no limit goes down, every MAX_STREAM_DATA frame written names a stream of the
+   table and carries exactly the limit that stream has afterwards (which is also its sent value) *)
+Definition strm_le (s s' : strm) : Prop :=
+  sm_recv s' = sm_recv s /\ sm_sendfin s' = sm_sendfin s /\ sm_msd s <= sm_msd s'.
+
+Lemma raise_streams_b_sound l : Forall (fun p => 0 <= sm_msd (snd p)) l -> forall b,
+  let '(l', w, r) := raise_streams_b l b in
+  Forall2 (fun p p' => fst p' = fst p /\ strm_le (snd p) (snd p')) l l' /\
+  Forall (fun x => match x with W ft a v => ft = FT_MAX_STREAM_DATA /\
+                     exists s', In (a, s') l' /\ v = sm_msd s' /\ sm_sent s' = v end) w.
+Proof.
+  induction 1 as [|[sid s] t H _ IH]; intros b; cbn [raise_streams_b]; [split; constructor|].
+  cbn [snd] in H.
+  set (v := if negb (sm_msd s =? 0) && (r_highest (sm_recv s) * 2 >? sm_msd s) then sm_msd s * 2 else sm_msd s).
+  assert (Hv : sm_msd s <= v) by (unfold v; destruct (negb (sm_msd s =? 0) && (r_highest (sm_recv s) * 2 >? sm_msd s)); lia).
+  assert (Same : Forall2 (fun p p' : Z * strm => fst p' = fst p /\ strm_le (snd p) (snd p')) t t).
+  { clear. induction t as [|q t IH]; constructor; [unfold strm_le; repeat split; lia|exact IH]. }
+  destruct (negb (sm_sent s =? v)).
+  - destruct (b <=? 0).
+    + split; [|constructor]. constructor; [|exact Same]. cbn. unfold strm_le.
+      destruct RAISE_BEFORE_START_FRAME; cbn; repeat split; lia.
+    + specialize (IH (b - 1)). destruct (raise_streams_b t (b - 1)) as [[t' w'] r]. destruct IH as (I1 & I2).
+      split; [constructor; [cbn; unfold strm_le; cbn; repeat split; lia|exact I1]|].
+      constructor.
+      * split; [reflexivity|]. eexists. split; [left; reflexivity|]. cbn. auto.
+      * eapply Forall_impl; [|exact I2]. intros [ft a x] (E & s' & Hin & Hx). split; [exact E|]. exists s'. split; [right; exact Hin|exact Hx].
+  - specialize (IH b). destruct (raise_streams_b t b) as [[t' w'] r]. destruct IH as (I1 & I2).
+    split; [constructor; [cbn; unfold strm_le; cbn; repeat split; lia|exact I1]|].
+    eapply Forall_impl; [|exact I2]. intros [ft a x] (E & s' & Hin & Hx). split; [exact E|]. exists s'. split; [right; exact Hin|exact Hx].
+Qed.
